@@ -21,6 +21,7 @@ import (
 	"filippo.io/age/agessh"
 	"filippo.io/age/armor"
 	"filippo.io/age/internal/format"
+	"filippo.io/age/internal/stream"
 	"filippo.io/age/internal/zzverif/ev"
 	"filippo.io/age/internal/zzverif/keys"
 	"filippo.io/age/internal/zzverif/lab"
@@ -53,10 +54,11 @@ func (s *countingSource) Read(p []byte) (int, error) {
 }
 
 type vector struct {
-	name    string
-	ids     []age.Identity
-	armored bool
-	file    []byte
+	name     string
+	ids      []age.Identity
+	armored  bool
+	file     []byte
+	tailOnly bool // edit only the last bytes (large files whose head is the same as a small file's)
 }
 
 // forEdits calls f with every edit of b at the selected positions; the slice passed to f is reused.
@@ -156,8 +158,16 @@ func main() {
 				vecs = append(vecs, vector{name: fmt.Sprintf("made/k%d.a%v", ki, armored), ids: []age.Identity{keys.X(0).Id, keys.Ed(0).Id, keys.RSA(0).Id, sp}, armored: armored, file: f})
 			}
 		}
+		// files whose final chunk is full: the end of the payload is then established by a probe read after the last chunk
+		for _, armored := range []bool{false, true} {
+			f, err := lab.Encrypt([]age.Recipient{keys.X(0).Rcpt}, lab.Plain(stream.ChunkSize, 2), armored, nil)
+			if err != nil {
+				panic(err)
+			}
+			vecs = append(vecs, vector{name: fmt.Sprintf("made/full-chunk.a%v", armored), ids: []age.Identity{keys.X(0).Id}, armored: armored, file: f, tailOnly: true})
+		}
 		c.Part("file-edits")
-		c.Bound("all %d CCTV vectors and 8 generated files (all recipient types, binary and armored): every truncation, deletion, duplication, and substitution/insertion from 13 byte values at every position of the first 1300 and last 120 bytes (thorough: 6000 / 700; whole file when shorter), through age.Decrypt (and armor.NewReader) with the vector's identities over a counting source", len(vecs))
+		c.Bound("all %d CCTV vectors and 8 generated files (+ 2 files with a full final chunk, edited in their last bytes only) (all recipient types, binary and armored): every truncation, deletion, duplication, and substitution/insertion from 13 byte values at every position of the first 1300 and last 120 bytes (thorough: 6000 / 700; whole file when shorter), through age.Decrypt (and armor.NewReader) with the vector's identities over a counting source", len(vecs))
 		runDecrypt := func(data []byte, armored bool, ids []age.Identity) (res lab.DecResult, src *countingSource) {
 			src = &countingSource{data: data}
 			res = lab.Decrypt(src, armored, 0, ids...)
@@ -176,7 +186,7 @@ func main() {
 			if c.Thorough() {
 				head, tail = 6000, 700
 			}
-			forEdits(v.file, func(p int) bool { return p < head || p > L-tail }, func(ei int, data []byte) {
+			forEdits(v.file, func(p int) bool { return p < head && !v.tailOnly || p > L-tail }, func(ei int, data []byte) {
 				nEdits++
 				id := fmt.Sprintf("%s/e%d", v.name, ei)
 				if c.Replaying() && !c.Want(id) {
